@@ -30,7 +30,7 @@ def T(tier, quick, thorough):
 
 KINDS = ["perm", "translate", "rotate_centre", "rotate_origin", "rigid", "scale_pow2", "similarity", "inward_nocheck"]
 FLIPS = ["none", "all", "one", "seed_only", "all_but_seed", "all_but_one", "p10", "p50", "p90"]
-FAMILIES = ["icosphere", "box", "uvsphere", "prism", "ellipsoid", "star"]
+FAMILIES = ["icosphere", "box", "uvsphere", "prism", "ellipsoid", "star", "cup"]
 SMALL = ["tetrahedron", "octahedron", "box1", "prism3"]
 
 
@@ -64,7 +64,7 @@ def run(tier, seed, t0):
     for f in FLIPS:
         floors["flip:" + f] = (b.get("flip:" + f, 0), 0.04 * 8 * regular)
     for f in FAMILIES:
-        floors["family:" + f] = (b.get("family:" + f, 0), 0.05 * regular)
+        floors["family:" + f] = (b.get("family:" + f, 0), 0.04 * regular)
     for s in SMALL:
         floors["flip_exhaustive_meshes:" + s] = (b.get("flip_exhaustive_meshes:" + s, 0), 1)
     for d in range(-6, 1):
